@@ -234,9 +234,9 @@ CLAIMED.update({
              "computes Go's result, outside the explicit known class of defined integer targets of another width) and for package-level variables "
              "(Model/Global: a global whose type holds no reference is observed by every sequence of reads/stores/loads exactly as in Go although "
              "its definition is evaluated at every use; with a reference it is not, and the guard looks inside structs and arrays). The inventory of "
-             "the translator's 120 guard calls (function, reporter, message) is regenerated on every run and must equal the committed one (rfl). "
+             "the translator's 137 guard calls (function, reporter, message) is regenerated on every run and must equal the committed one (rfl). "
              "Tied to the code by that inventory, by the structural correspondence on random skeletons (which are rejected, and why), and by a "
-             "catalogue of ~95 out-of-subset constructs x 9 positions, 12 control-flow shapes, 25 declaration forms, 18 look-alike packages and a "
+             "catalogue of ~130 out-of-subset constructs x 9 positions, 12 control-flow shapes, 32 declaration forms, 18 look-alike packages and a "
              "splice stream, each function judged rejected-or-equal against native Go via the real goose and the Lean interpreter; plus two "
              "model-vs-binary streams: generated multiple assignments (goose accepts exactly when the model's guard does) and all 267 allowed "
              "conversions over the type universe (goose's outcome is the model's decision).",
